@@ -16,7 +16,7 @@ from vsg import tokens  # noqa: E402
 
 # the model alphabet (spec/LexerOps.tla): class id -> concrete character
 ALPHA = {1: " ", 2: "\t", 3: "a", 4: "e", 5: "x", 6: "1", 7: ".", 8: '"', 9: "'", 10: "\\", 11: "-", 12: "*", 13: "/", 14: "=", 15: "<", 16: ">", 17: "?",
-         18: "(", 19: ";", 20: ":", 21: "E"}
+         18: "(", 19: ";", 20: ":", 21: "E", 22: "|", 23: ","}
 REV = dict((v, k) for k, v in ALPHA.items())
 
 PASSES = ["combine_whitespace", "combine_string_literals", "combine_backslash_characters_into_symbols", "combine_three_character_symbols",
@@ -40,8 +40,25 @@ def run_passes(s, enc):
     for name in source_order():
         getattr(o, name)()
         out.append([enc(c) for c in o.lChars])
-    final = [enc(c) for c in tokens.create(s)]
-    return out, final
+    raw = tokens.create(s)
+    final = [enc(c) for c in raw]
+    return out, final, raw
+
+
+# the delimiters of the language (IEEE 1076-2008, 15.3), not read from VSG's tables; '.' is left out (VSG keeps selected names
+# in one word on purpose), so are the characters VHDL gives no lexical meaning outside literals
+_DELIMS = set("&'()*+,-/:;<=>|[]?")
+_COMPOUND = {"=>", "**", ":=", "/=", ">=", "<=", "<>", "??", "?=", "?/=", "?<", "?<=", "?>", "?>=", "<<", ">>", "--", "/*", "*/"}
+
+
+def char_classes(chunks):
+    """per chunk the class of every character (1 blank, 2 VHDL delimiter, 3 quote / backslash, 0 other) and whether the chunk
+    is a compound delimiter of the language"""
+    fcls, fsym = [], []
+    for c in chunks:
+        fcls.append([1 if ch.isspace() else (3 if ch in "\"'\\" else (2 if ch in _DELIMS else 0)) for ch in c])
+        fsym.append(c in _COMPOUND)
+    return fcls, fsym
 
 
 def enc_alpha(c):
@@ -67,16 +84,18 @@ def main():
                 if idx % job["nshards"] != job["shard"]:
                     continue
                 s = "".join(ALPHA[k] for k in tup)
-                passes, final = run_passes(s, enc_alpha)
+                passes, final, raw = run_passes(s, enc_alpha)
                 rid += 1
-                recs.append({"id": rid, "input": list(tup), "passes": passes, "final": final, "exact": exact_ok and len(passes) == 10})
+                fcls, fsym = char_classes(raw)
+                recs.append({"id": rid, "input": list(tup), "passes": passes, "final": final, "exact": exact_ok and len(passes) == 10, "fcls": fcls, "fsym": fsym})
     else:
         for s in job["strings"]:
             inalpha = all(ch in REV for ch in s)
             enc = enc_alpha if inalpha else enc_ord
-            passes, final = run_passes(s, enc)
+            passes, final, raw = run_passes(s, enc)
             rid += 1
-            recs.append({"id": rid, "input": enc(s), "passes": passes, "final": final, "exact": inalpha and exact_ok and len(passes) == 10, "text": s})
+            fcls, fsym = char_classes(raw)
+            recs.append({"id": rid, "input": enc(s), "passes": passes, "final": final, "exact": inalpha and exact_ok and len(passes) == 10, "text": s, "fcls": fcls, "fsym": fsym})
     # the trace spec indexes passes[1..10]; pad if the code has a different number of passes (then only the contract is checked on what exists)
     for r in recs:
         while len(r["passes"]) < 10:
